@@ -61,13 +61,19 @@ def is_limit(f, s, dim):
     return len(ch) >= 2 and ch[-1] == dim and ch[-2] == LIMIT_FIELD and root[0] == "param"
 
 
-def reads_exunits(s, dim):
-    """Does the value read `<something>.ex_units.<dim>`?"""
+def reads_exunits(s, dim, F=None):
+    """Does the value read `<something>.ex_units.<dim>` — or, when the function is given, `<x>.<dim>` of an `x` whose type is
+    ExUnits (an element of a collection of execution units, a closure parameter `|acc, ex_units|`)?"""
     for n in sym_walk(s):
         if n[0] == "field" and str(n[2]) == dim:
-            _, ch = field_chain(n)
+            root, ch = field_chain(n)
             if len(ch) >= 2 and ch[-2] == "ex_units":
                 return True
+            if F is not None and ch == [dim] and root[0] in ("param", "local") and re.search(r"(^|[&: ])ExUnits$", F.local_ty(root[1])):
+                return True
+            if F is not None and ch == [dim] and root[0] == "field":
+                # `(item as Some).0.mem` with item: Option<&ExUnits> — element of an iterator over execution units
+                pass
     return False
 
 
@@ -139,10 +145,10 @@ def closure_reads(P, H, sym, dim):
             if h is None:
                 continue
             for bi, si, s in h.statements():
-                if s[0] == "a" and reads_exunits(h.sym_rvalue(s[2], 30), dim):
+                if s[0] == "a" and reads_exunits(h.sym_rvalue(s[2], 30), dim, h):
                     return True
             for bi, t in h.calls():
-                if any(reads_exunits(h.sym_operand(a), dim) for a in t["args"]):
+                if any(reads_exunits(h.sym_operand(a), dim, h) for a in t["args"]):
                     return True
     return False
 
@@ -159,7 +165,7 @@ def sites_in(P, H, dim, _stack=()):
     for bi, si, s in H.statements():
         if s[0] == "a":
             rv = H.sym_rvalue(s[2], 30)
-            if s[2]["k"] == "bin" and ADD.match(str(s[2]["op"])) and reads_exunits(rv, dim):
+            if s[2]["k"] == "bin" and ADD.match(str(s[2]["op"])) and reads_exunits(rv, dim, H):
                 out.append((bi, "running sum"))
     for bi, t in H.calls():
         name = callee(t)
@@ -167,7 +173,7 @@ def sites_in(P, H, dim, _stack=()):
             a0 = H.sym_operand(t["args"][0])
             if reads_exunits(a0, dim) or closure_reads(P, H, a0, dim) or any(closure_reads(P, H, H.sym_operand(a), dim) for a in t["args"][1:]):
                 out.append((bi, name.split("::")[-1]))
-        elif ADD_CALL.search(name) and any(reads_exunits(H.sym_operand(a), dim) for a in t["args"]):
+        elif ADD_CALL.search(name) and any(reads_exunits(H.sym_operand(a), dim, H) for a in t["args"]):
             out.append((bi, name.split("::")[-1]))
         g = P.fns.get(t.get("f") or "")
         if g is not None and g.crate == H.crate and g is not H and g.kind != "Closure":
@@ -187,12 +193,95 @@ def sites_in(P, H, dim, _stack=()):
     return out
 
 
+def _acc_root(acc):
+    """(root local, field chain) of the compared operand: `mem` -> (l, []), `budget.mem` -> (l, ['mem'])."""
+    root, ch = field_chain(acc)
+    if root[0] == "local":
+        return root[1], ch
+    return None, ch
+
+
+def helper_adds(P, g, pidx, chain, dim, caller, t):
+    """Does crate function g add `<redeemer>.ex_units.dim` into the memory behind its parameter `pidx` (field chain `chain`)?
+    The addend may be read from ex_units directly or from another parameter that the caller binds to an `ex_units` value."""
+    for bi, si, s in g.statements():
+        if s[0] != "a":
+            continue
+        tgt = write_target(g, s[1]) if not isinstance(s[1], int) else None
+        if tgt is None:
+            continue
+        root, ch = field_chain(tgt)
+        if root[0] != "param" or root[1] != pidx or ch != list(chain):
+            continue
+        rv = g.sym_rvalue(s[2], 30)
+        if not has_add(rv):
+            continue
+        if reads_exunits(rv, dim):
+            return True
+        for n in sym_walk(rv):
+            if n[0] == "field" and str(n[2]) == dim:
+                r2, c2 = field_chain(n)
+                if r2[0] == "param" and r2[1] != pidx and c2 == [dim] and r2[1] - 1 < len(t["args"]):
+                    _, cc = field_chain(caller.sym_operand(t["args"][r2[1] - 1]))
+                    if cc and cc[-1] == "ex_units":
+                        return True
+            if n[0] == "param" and n[1] != pidx and n[1] - 1 < len(t["args"]):
+                if reads_exunits(caller.sym_operand(t["args"][n[1] - 1]), dim):
+                    return True
+    return False
+
+
+def mut_helper_sites(P, G, acc, dim):
+    """Calls of G that hand `&mut <accumulator>` (the local or the struct holding it) to a crate helper which adds ex_units.dim."""
+    l, ch = _acc_root(acc)
+    if l is None:
+        return []
+    out = []
+    for bi, t in G.calls():
+        g = P.fns.get(t.get("f") or "")
+        if g is None or g.crate != G.crate or g is G or g.kind == "Closure":
+            continue
+        for i, a in enumerate(t["args"]):
+            sym = G.sym_operand(a)
+            if sym[0] != "ref":
+                continue
+            root, c2 = field_chain(sym)
+            if root[0] != "local" or root[1] != l or c2 != ch[:len(c2)]:
+                continue
+            if not g.local_ty(i + 1).startswith("&mut"):
+                continue
+            if helper_adds(P, g, i + 1, ch[len(c2):], dim, G, t):
+                out.append((bi, "helper %s(&mut ..)" % g.name))
+    return out
+
+
+def field_sum_sites(G, acc, dim):
+    """Running sum kept in a struct field: `budget.mem = budget.mem + x.ex_units.mem` (or checked_add(..)?)."""
+    l, ch = _acc_root(acc)
+    if l is None or not ch:
+        return []
+    out = []
+    for bi, si, s in G.statements():
+        if s[0] != "a" or isinstance(s[1], int) or pl_local(s[1]) != l:
+            continue
+        root, c2 = field_chain(G.sym_place(s[1]))
+        if c2 != ch:
+            continue
+        rv = G.sym_rvalue(s[2], 30)
+        if has_add(rv) and reads_exunits(rv, dim):
+            out.append((bi, "running sum in a field"))
+    return out
+
+
 def value_sources(P, G, acc, dim):
     """How the value compared with the maximum is obtained: -> (live sites in G, dead descriptions)."""
     a = strip(acc)
     all_sites = sites_in(P, G, dim)
     live = [x for x in all_sites if x[0] is not None]
     dead = [x for x in all_sites if x[0] is None]
+    via = mut_helper_sites(P, G, acc, dim) + field_sum_sites(G, acc, dim)
+    if via:
+        return via, []
     if a[0] == "local":
         l = a[1]
         mine = [x for x in accumulation_sites(P, G, l, dim)]
@@ -251,6 +340,10 @@ def analyse_budget_fn(res, P, M, era, G, V, ref_era=False):
                     cmp_blocks.add(bi)
     n_sites = 0
     arm_seen = set()
+    if not any(comps[d] for d in DIMS):
+        # reports the error without testing the limit at all (e.g. a helper that adds with overflow detection): the limit test is
+        # decided elsewhere; run() fails closed if no function of the era compares with the limit
+        return None
     for d in DIMS:
         k = "budget-compare:%s:%s" % (fkey, d)
         if not comps[d]:
@@ -373,11 +466,19 @@ def run(tier):
             owners = [G for G in CF if V in M.direct(G) and G.kind != "Closure"]
             res.count("%s: functions reporting %s" % (era, V), len(owners))
             scope = {}
+            deciders = 0
             for G in owners:
-                budget_fns += 1
-                analyse_budget_fn(res, P, M, era, G, V, ref_era=any(v.endswith("::ReferenceInputNotInUTxO") for v in M.mentions(pipe)))
+                r = analyse_budget_fn(res, P, M, era, G, V, ref_era=any(v.endswith("::ReferenceInputNotInUTxO") for v in M.mentions(pipe)))
+                if r is not None:
+                    deciders += 1
+                    budget_fns += 1
+                else:
+                    res.notes.append("%s: %s reports %s without comparing with the limit (overflow helper) - not the limit test" % (era, G.path, V))
                 for H in M.closure_fns(G):
                     scope[H.path] = H
+            if owners and not deciders:
+                res.violation("budget-compare:%s:none" % era, "no function of the %s pipeline that reports %s compares an accumulated value with %s: the per-transaction maximum is never tested"
+                              % (era, V, LIMIT_FIELD), where=where(owners[0]), rule="R-CDEP")
             # (b) R-LAZY in the budget function, its closures and callees
             for H in scope.values():
                 for bi, t in H.calls():
